@@ -17,6 +17,10 @@ CLAIMED = {
    text="Lean 4 theorems: the look-ahead chunk reader emits, for every file length and every short-read schedule, chunks whose concatenation is the file, exactly the last one flagged 'no more', none empty, all within the maximum; the boss's chunk relay succeeds iff the stream is terminated and totals the listed size (any growth/shrink => error) and forwards exactly the consumed chunks with the time stamp on the last; the largest chunk fits the frame buffers (constants extracted from the source on every run). Tie: real GetFileContent / CreateOrUpdateFile on real files of every boundary length (chunk sequence = model, CRC per chunk, bytes+mtime read back) and the real sync() relaying scripted growing/shrinking sources.",
    note="Trusted: Lean kernel; host read(2)/write(2) (regular files give full reads: short-read schedules are covered by the theorem only); extraction of the four chunk constants and the buffer size; differential tie bounded by the lengths listed in the evidence.",
    technique="Lean 4 proof (functional induction over the reader, induction over the chunk stream) + L3/L2 correspondence", design="§3 C11"),
+ 'C14': dict(
+   text="Lean 4 theorems: bincode decode(encode m) = m consuming exactly m's bytes, for every Command and Response variant and payloads of any length (compositional round-trip lemmas), lifted to streams (exactly once, in order, intact); the memory-bound channel as a two-thread transition system: in every reachable state, for every capacity (0 and below one message included), message sequence and schedule, counter = accounted size in flight and delivered ++ in flight ++ unsent = the sequence handed to send (FIFO, exactly once); a sender waits only if the bytes counted before its message exceed the capacity; a waiting sender is never stuck; with nothing queued any size is admitted; drained => counter 0. C14_channel_matches pins the protocol features extracted from memory_bound_channel.rs on this run (count-before-block, compare old with >, wait loop subtracts own size, release on recv and try_recv). Tie: real bincode bytes/serialized_size/decode of 3000+ generated messages incl. 4 MiB+1 payloads = model bytes; the real channel between two threads over 600 (capacity, sizes) cases: admitted sends with an idle receiver = model = independent oracle, order/intactness, counter 0 after draining; honest runs of the real TCP link.",
+   note="Trusted: Lean kernel; crossbeam unbounded channel is a FIFO; Relaxed atomics on one location; bincode/serde derive (validated byte-for-byte on the generated messages); real thread timing is sampled - the schedule quantifier is carried by the theorem + feature extraction; Response::ProfilingData not modelled.",
+   technique="Lean 4 proof (round-trip lemmas; inductive invariant of a transition system over all schedules) + feature extraction + L1/real-channel correspondence", design="§3 C14"),
  'C15': dict(
    text="Lean 4 theorems: the key text round trip holds for all 2^128 keys (per-digit lemma lifted by induction over the 16 bytes, leading zero bytes included); in the handshake-loop machine, over *any* message sequence of the two reader threads, a step writes the key only on stdout's started-line carrying exactly the local version, any other version ends the loop with nothing written, success implies the key was handed over; the launch/deploy/relaunch decision uploads only with consent (ok/force/prompt answered Deploy), 'error' or a cancelled prompt uploads nothing and fails, exactly one relaunch after a deploy (exhaustive case analysis). Tie: the two real key-text expressions on 2000+ keys incl. every count of leading zero bytes; the CLI against fake ssh/scp with a real --doer process over {absent, same, other version, broken} x {prompt(Deploy/cancel), error, ok, force}, one or both doers remote: launches, uploads, exit status = model; a wrong-version doer's stdin stays empty.",
    note="Trusted: Lean kernel; OsRng freshness; the fake ssh/scp (bash) stand in for real ssh; the reader-thread message abstraction is hand-modelled (tied by the L4 matrix); interleavings of handshake lines with noise are covered by the theorem over arbitrary message sequences, sampled only through the real process's own timing.",
